@@ -269,3 +269,6 @@ Example C13_ex_str_literal : let o := mkObj false (Some (of_string "w/5")) None 
 Proof. vm_compute. repeat split. Qed.
 Example C13_ex_reordering : reordering [br_flt; br_int; br_dec; br_pre; br_lit; br_enum; br_str; br_none].
 Proof. split; intros b H; cbn in H |- *; tauto. Qed.
+Example C13_ex_overlap_big : let o := mkObj false None (Some None) None None None (Some (9223372036854775808, false)) None in
+  unrepresentable (snd (expected_obj 4 o)) = true /\ export_param_value_obj o = Error EBadKind.
+Proof. vm_compute. repeat split. Qed.
